@@ -43,6 +43,7 @@ func (s *Sym) String() string {
 }
 
 type dcell struct {
+	shared string // non-empty: variable written by a closure; loads are opaque and named by this
 	id     string
 	whole  *Sym            // value stored as a whole (nil = zero)
 	fields map[string]*Sym // overrides by field path
@@ -101,7 +102,7 @@ func (st *dstate) clone() *dstate {
 	n := &dstate{env: map[ssa.Value]*Sym{}, cells: map[ssa.Value]*dcell{}, assign: map[string]string{}, ncall: map[string]int{}}
 	cellMap := map[*dcell]*dcell{}
 	for k, c := range st.cells {
-		nc := &dcell{id: c.id, whole: c.whole, fields: map[string]*Sym{}, typ: c.typ}
+		nc := &dcell{id: c.id, whole: c.whole, fields: map[string]*Sym{}, typ: c.typ, shared: c.shared}
 		for f, v := range c.fields {
 			nc.fields[f] = v
 		}
@@ -289,6 +290,12 @@ func (d *dtree) exec(st *dstate, in ssa.Instruction, b *ssa.BasicBlock) bool {
 	switch x := in.(type) {
 	case *ssa.Alloc:
 		c := &dcell{id: "cell:" + x.Name(), typ: deref(x.Type()), fields: map[string]*Sym{}}
+		// a variable captured and written by a closure can change at any call: keep it opaque
+		for _, stc := range StoresTo(&Cell{x}) {
+			if stc.Parent() != x.Parent() {
+				c.shared = d.name(x, x.Comment)
+			}
+		}
 		st.cells[x] = c
 		st.env[x] = &Sym{K: "ptr", S: "&" + x.Name(), Cell: c, T: x.Type()}
 	case *ssa.Store:
@@ -421,6 +428,12 @@ func (d *dtree) load(st *dstate, addr *Sym) *Sym {
 			path = addr.S[i+1:]
 		}
 		c := addr.Cell
+		if c.shared != "" {
+			if path == "" {
+				return &Sym{K: "param", S: c.shared}
+			}
+			return &Sym{K: "field", S: c.shared + "." + path}
+		}
 		if path == "" {
 			return d.cellValue(c)
 		}
@@ -579,6 +592,9 @@ func (d *dtree) evalInstr(st *dstate, v ssa.Value) *Sym {
 		name := "call " + txt
 		if n := st.ncall[txt]; n > 1 {
 			name = fmt.Sprintf("call#%d %s", n, txt)
+		}
+		if short, ok := d.cfg.Names[x]; ok {
+			name = short
 		}
 		st.calls = append(st.calls, txt)
 		res := &Sym{K: "atom", S: name, T: x.Type()}
